@@ -137,6 +137,7 @@ type Run struct {
 
 	wdMu   sync.Mutex
 	wdLive map[*W]bool
+	scale  float64
 }
 
 // W is a worker-local recorder. Not safe for concurrent use.
@@ -170,6 +171,7 @@ func NewRun(prop, tier string, seed uint64, dir string) *Run {
 		distinct: map[uint64]struct{}{}, violKinds: map[string]int64{},
 		known: map[string]*knownAgg{}, errs: map[string]*errRec{}, extra: map[string]any{},
 		findings: map[string]Finding{}, wdLive: map[*W]bool{}}
+	r.scale, _ = strconv.ParseFloat(os.Getenv("VERIF_SCALE"), 64)
 	go r.watchdog()
 	if r.NW > 16 {
 		r.NW = 16
@@ -197,10 +199,21 @@ func (r *Run) loadFindings() {
 
 // Pick returns q in the quick tier and t in the thorough tier.
 func (r *Run) Pick(q, t int) int {
+	n := t
 	if r.Quick {
-		return q
+		n = q
 	}
-	return t
+	// VERIF_SCALE shrinks the random classes (used by the race-detector sweep
+	// of C20's thorough tier, which runs every monitor under -race)
+	// (only values that are plainly case counts: small numbers are bounds of
+	// enumerations such as a maximal N and must not shrink)
+	if r.scale > 0 && r.scale < 1 && n >= 200 {
+		n = int(float64(n) * r.scale)
+		if n < 100 {
+			n = 100
+		}
+	}
+	return n
 }
 
 // Gate declares classes that must each be hit at least once.
